@@ -211,7 +211,12 @@ def hostile_args(rng, ex, L, hg):
         {'m': 'count', 'r': ri, 'a': ['']},
         {'m': 'center', 'r': ri, 'a': [rng.choice([0, -7, n, 3000]), rng.choice(['ab', '', ' '])]},
         {'m': 'ljust', 'r': ri, 'a': [rng.choice([0, -7, 3000])]},
+        {'m': rng.choice(['ljust', 'rjust']), 'r': ri, 'a': [n + 2, rng.choice(['ab', ''])],
+         'k': ({'inplace': True} if mut and rng.random() < 0.5 else {})},
         {'m': 'zfill', 'r': ri, 'a': [rng.choice([0, -1, 2500])]},
+        # a width no string can have (str raises OverflowError for the same call): nothing may have been moved yet
+        {'m': rng.choice(['ljust', 'rjust', 'center', 'zfill']), 'r': ri, 'a': [10 ** 30],
+         'k': ({'inplace': True} if mut and rng.random() < 0.7 else {})},
         {'m': 'getitem', 'r': ri, 'a': [rng.choice([10 ** 6, -10 ** 6, n, -n - 1])]},
         {'m': 'getitem', 'r': ri, 'a': [{'sl': [None, None, rng.choice([2, -1, 0])]}]},
         {'m': 'getitem', 'r': ri, 'a': ['a']},
